@@ -225,16 +225,21 @@ func (ws *WatchingSource) Watch(
 		return fmt.Errorf("failed to initialize watcher: %s", watchErr)
 	}
 
+	// watchLoop owns the watcher once it's started; until then we have to
+	// release it (its inotify descriptor and goroutine) ourselves on failure.
 	if addErr := ws.watcher.Add(cleanedPath); addErr != nil {
+		ws.watcher.Close()
 		return fmt.Errorf("failed to setup watch on file %q: %s",
 			cleanedPath, addErr)
 	}
 	if addErr := ws.watcher.Add(filepath.Dir(cleanedPath)); addErr != nil {
+		ws.watcher.Close()
 		return fmt.Errorf("failed to setup watch on directory %q: %s",
 			cleanedPath, addErr)
 	}
 	if cleanedPath != resolvedCfgPath {
 		if addErr := ws.watcher.Add(filepath.Dir(resolvedCfgPath)); addErr != nil {
+			ws.watcher.Close()
 			return fmt.Errorf("failed to setup watch on symlink-target dir %q: %s",
 				filepath.Dir(resolvedCfgPath), addErr)
 		}
